@@ -661,8 +661,8 @@ def r7_generated_configuration(a, tier, rule_id='C02.R7'):
     und = object()
     n_bad = 0
     for ws, ng, nc, ic, pi, cm in itertools.product((und, None, '[ ]+'), (None, True, False), ('', '-'), (False, True), (False, True), (None, '#.*')):
-        cfg = Obj(start='expr', whitespace=ws, nameguard=ng, namechars=nc, ignorecase=ic, parseinfo=pi, comments=cm, eol_comments=None)
-        grammar = Stub('tatsu.peg.base.Grammar', config=cfg, directives={}, name='G', rules=[Obj(name='expr')])
+        cfg = Obj(start='other', whitespace=ws, nameguard=ng, namechars=nc, ignorecase=ic, parseinfo=pi, comments=cm, eol_comments=None)
+        grammar = Stub('tatsu.peg.base.Grammar', config=cfg, directives={}, name='G', rules=[Obj(name='expr'), Obj(name='other')])
         out = []
         gen = Stub(GEN, print=Hook(lambda *x, **_k: out.append(' '.join(str(y) for y in x))))
         it = ModelInterp(a, {'Undefined': und, 'regexpp': Hook(lambda r_: repr(r_))})
@@ -683,7 +683,7 @@ def r7_generated_configuration(a, tier, rule_id='C02.R7'):
         except SyntaxError:
             got = {'<unparsable>': text[:80]}
         want = {'name': 'G', 'whitespace': None if ws is und else ws, 'nameguard': ng, 'ignorecase': ic, 'namechars': nc, 'parseinfo': pi,
-                'comments': cm, 'eol_comments': None, 'keywords': 'KEYWORDS', 'start': 'expr', 'config': 'config'}
+                'comments': cm, 'eol_comments': None, 'keywords': 'KEYWORDS', 'start': 'other', 'config': 'config'}
         diff = {k: (got.get(k, '<missing>'), v) for k, v in want.items() if got.get(k, '<missing>') != v or type(got.get(k)) is not type(v)}
         rep.add({'model_settings': {'whitespace': 'default' if ws is und else ws, 'nameguard': ng, 'namechars': nc, 'ignorecase': ic, 'parseinfo': pi, 'comments': cm},
                  'generated_differs_in': {k: list(map(repr, v)) for k, v in diff.items()}})
@@ -780,20 +780,24 @@ def _walker_operands_interpreted(a, cls: str, fields) -> set[str]:
         extra.update(_RULE_ATTRS)
     node = Stub(cls, **{**extra, **attrs})
     walked: set[str] = set()
+    events: list = []
+    index = {id(m): i for i, m in enumerate(keep)}
 
     def walk(n, *args, **kw):
         for x in (n if isinstance(n, (list, tuple)) else [n]):
             if id(x) in owner:
                 walked.add(owner[id(x)])
+                events.append(('walk', owner[id(x)], index.get(id(x), -1)))
         return ''
 
     it = ModelInterp(a, {'regexpp': Hook(lambda x: repr(x)), 'safe_name': Hook(lambda s_, *x: s_)})
     gen = Stub(GEN, ctx='ctx', ctx_stack=['ctx'], loopn='cl', blockn=0, parser_name='',
-               print=Hook(lambda *args, **kw: None), indent=Hook(lambda *args, **kw: _NullCM()), walk=Hook(walk),
+               print=Hook(lambda *args, **kw: events.append(('print', ' '.join(str(x) for x in args)))), indent=Hook(lambda *args, **kw: _NullCM()), walk=Hook(walk),
                pfold=Hook(lambda *args, **kw: None), new_choice_number=Hook(lambda: 0), prev_choice_number=Hook(lambda: None),
                reset_counters=Hook(lambda: None), fitsfmt=Hook(lambda *args, **kw: True))
     w = _find_walker(a, GEN, cls)
     it.call_bound(Bound(gen, w.fn), [node], {})
+    _walker_operands_interpreted.events = events
     return walked
 
 
@@ -832,8 +836,31 @@ def r8_operand_correspondence(a, tier):
         except Unsupported as e:
             g = _walker_operand_reads(a, wfn, operands)
             how = f'def-use ({e})'
+        order_ok, roles_ok, role_map = True, True, {}
+        if how == 'interpreted':
+            ev = getattr(_walker_operands_interpreted, 'events', [])
+            last_decor = None
+            per_field: dict[str, list[int]] = {}
+            for e in ev:
+                if e[0] == 'print':
+                    d = re.search(r'@\w+\.(exp|sep)\b', e[1])
+                    if d:
+                        last_decor = d.group(1)
+                else:
+                    per_field.setdefault(e[1], []).append(e[2])
+                    if last_decor and e[1] in ('exp', 'sep'):
+                        role_map[e[1]] = last_decor
+                        last_decor = None
+            order_ok = all(v == sorted(v) for v in per_field.values())
+            roles_ok = all(k == v for k, v in role_map.items())
         rep.add({'class': short, 'operand_fields': sorted(operands), 'model_parses': sorted(m), 'handler': wfn.name,
-                 'generator_walks': sorted(g), 'how': how})
+                 'generator_walks': sorted(g), 'how': how, 'elements_in_model_order': order_ok, 'roles': role_map})
+        if not order_ok:
+            rep.fail(c, f'operand-order:{short}', f'{wfn.name} walks the elements of a list operand of {short} in another order than the model holds '
+                     f'(and parses) them: the generated parser tries options / matches elements in a different order', wfn.loc)
+        if not roles_ok:
+            rep.fail(c, f'operand-roles:{short}', f'{wfn.name} registers the operands of {short} under the wrong roles {role_map} (field -> role): the '
+                     f'generated parser repeats the separator and separates with the element', wfn.loc)
         if m != g:
             rep.fail(c, f'operands:{short}:{",".join(sorted(m))}!={",".join(sorted(g))}',
                      f'{short}._parse parses the operand(s) {sorted(m)} but the generator handler {wfn.name} walks {sorted(g)}: the generated '
